@@ -77,6 +77,128 @@ def apply_edits(text, edits, where, prov):
     return text
 
 
+VSTR_TRAIT = """
+// class F support (trusted): Display of String / str is the string itself
+pub trait VStr {
+    spec fn vs_view(&self) -> Seq<char>;
+    fn vs(&self) -> (r: &str) ensures r@ == self.vs_view();
+}
+impl VStr for String {
+    open spec fn vs_view(&self) -> Seq<char> { self@ }
+    #[verifier::external_body] fn vs(&self) -> (r: &str) { self.as_str() }
+}
+impl VStr for str {
+    open spec fn vs_view(&self) -> Seq<char> { self@ }
+    #[verifier::external_body] fn vs(&self) -> (r: &str) { self }
+}
+"""
+
+
+def fmt_shim(pattern):
+    """class F shim for one piece pattern, e.g. 'ala': body is the same format! call on the same pieces."""
+    ps = ["%s%d: &str" % (c, i) for i, c in enumerate(pattern)]
+    ens = " + ".join("%s%d@" % (c, i) for i, c in enumerate(pattern))
+    args = ", ".join("%s%d" % (c, i) for i, c in enumerate(pattern))
+    return ("#[verifier::external_body] pub fn vfmt_%s(%s) -> (r: String) ensures r@ == %s { format!(\"%s\", %s) }"
+            % (pattern, ", ".join(ps), ens, "{}" * len(pattern), args))
+
+
+def auto_format(body, where, prov, patterns):
+    """class F: rewrite every format!(LIT, args..) with plain {} / {ident} placeholders into vfmt_<pattern>(pieces)."""
+    toks = code_tokens(body)
+    out, pos = [], 0
+    k = 0
+    while k < len(toks) - 2:
+        if toks[k][1] == "format" and toks[k + 1][1] == "!" and toks[k + 2][1] == "(":
+            e = match_close(toks, k + 2)
+            lit = toks[k + 3]
+            if lit[0] != "str" or not lit[1].startswith('"'):
+                raise LostAnchor("%s: format! without plain literal" % where)
+            content = lit[1][1:-1]
+            if "{{" in content or "}}" in content:
+                raise LostAnchor("%s: format! with escaped braces" % where)
+            # split args on top-level commas
+            args, cur, j = [], [], k + 4
+            while j < e:
+                t = toks[j]
+                if t[0] == "punct" and t[1] in "([{":
+                    j2 = match_close(toks, j)
+                    cur.append(body[t[2]:toks[j2][3]])
+                    j = j2 + 1
+                    continue
+                if t[1] == "," and t[0] == "punct":
+                    if cur:
+                        args.append(cur)
+                    cur = []
+                else:
+                    cur.append((t[2], t[3]))
+                j += 1
+            if cur:
+                args.append(cur)
+
+            def arg_text(parts):
+                a = parts[0][0] if isinstance(parts[0], tuple) else None
+                # reconstruct by source span from first to last piece
+                first = parts[0]
+                last = parts[-1]
+                st = first[0] if isinstance(first, tuple) else body.index(first)
+                return None
+            # simpler: recompute arg source spans from token offsets
+            spans, start, depth = [], None, 0
+            j = k + 4
+            while j < e:
+                t = toks[j]
+                if t[0] == "punct" and t[1] in "([{":
+                    if start is None:
+                        start = t[2]
+                    j = match_close(toks, j) + 1
+                    endp = toks[j - 1][3]
+                    last_end = endp
+                    continue
+                if t[0] == "punct" and t[1] == ",":
+                    if start is not None:
+                        spans.append(body[start:last_end])
+                    start = None
+                else:
+                    if start is None:
+                        start = t[2]
+                    last_end = t[3]
+                j += 1
+            if start is not None:
+                spans.append(body[start:last_end])
+            pieces, pat, ai = [], "", 0
+            for m in re.split(r"(\{[^}]*\})", content):
+                if m.startswith("{") and m.endswith("}"):
+                    inner = m[1:-1]
+                    if inner == "":
+                        if ai >= len(spans):
+                            raise LostAnchor("%s: format! placeholder without argument" % where)
+                        pieces.append("(%s).vs()" % spans[ai])
+                        ai += 1
+                    elif re.fullmatch(r"[A-Za-z_][A-Za-z0-9_]*", inner):
+                        pieces.append("(%s).vs()" % inner)
+                    else:
+                        raise LostAnchor("%s: unsupported format placeholder {%s}" % (where, inner))
+                    pat += "a"
+                elif m != "":
+                    pieces.append('"%s"' % m)
+                    pat += "l"
+            if ai != len(spans):
+                raise LostAnchor("%s: format! argument count mismatch" % where)
+            if not pat:
+                pieces, pat = ['""'], "l"
+            patterns.add(pat)
+            out.append(body[pos:toks[k][2]])
+            out.append("vfmt_%s(%s)" % (pat, ", ".join(pieces)))
+            prov.append({"cls": "F", "find": body[toks[k][2]:toks[e][3]], "replace": out[-1]})
+            pos = toks[e][3]
+            k = e + 1
+        else:
+            k += 1
+    out.append(body[pos:])
+    return "".join(out)
+
+
 def name_return(sig, ret):
     """class A: `-> T` becomes `-> (ret: T)` so that contracts can name the result."""
     toks = code_tokens(sig)
@@ -229,7 +351,7 @@ def derive_impls(kind, name, derives, generics=""):
 def generics_use(g):
     if not g:
         return ""
-    names = re.findall(r"[<,]\s*([A-Za-z_][A-Za-z0-9_]*)", g)
+    names = re.findall(r"[<,]\s*('?[A-Za-z_][A-Za-z0-9_]*)", g)
     return "<" + ", ".join(names) + ">"
 
 
@@ -243,6 +365,7 @@ class Unit:
         self.prov = {"unit": name, "items": [], "includes": []}
         self.fn_props = {}      # fn label -> props (safety bundle)
         self.clause_index = {}  # clause id -> {props, text, kind, fn}
+        self.fmt_patterns = set()
 
     def src(self, rel):
         if rel not in self.files:
@@ -254,7 +377,16 @@ class Unit:
         txt = open(p, encoding="utf-8").read()
         self.prov["includes"].append(rel)
         em.emit("// ---- %s ----" % rel, None)
-        em.emit(txt, per_line=lambda k, rel=rel: {"kind": origin_kind, "file": rel, "line": k + 1})
+        lem, cur = [], None
+        for ln in txt.split("\n"):
+            m = re.match(r"\s*(?:pub )?(?:broadcast )?proof fn ([A-Za-z0-9_]+)", ln)
+            if m:
+                cur = m.group(1)
+            lem.append(cur)
+            if ln.startswith("}"):
+                cur = None
+        lem.append(None)
+        em.emit(txt, per_line=lambda k, rel=rel: {"kind": origin_kind, "file": rel, "line": k + 1, "lemma": lem[k] if k < len(lem) else None})
 
     def emit_item(self, em, spec):
         sf = self.src(spec["file"])
@@ -281,8 +413,13 @@ class Unit:
             body = strip_comments(it.body)
             sig = apply_edits(sig, [e for e in spec.get("edit", []) if e.get("in") == "sig"], where, prov)
             body = apply_edits(body, [e for e in spec.get("edit", []) if e.get("in", "body") == "body"], where, prov)
-            if spec.get("pub_crate_to_pub", True):
-                sig = sig.replace("pub(crate) ", "pub ")
+            if spec.get("autofmt"):
+                body = auto_format(body, where, prov, self.fmt_patterns)
+            m = re.match(r"\s*(pub\s*(\([a-z:]+\))?\s+)", sig)
+            if m:
+                # class X: visibility has no executable meaning inside the single-file crate
+                prov.append({"cls": "X", "what": "drop visibility `%s`" % m.group(1).strip()})
+                sig = sig[m.end():]
             self.fn_props[label] = spec.get("props", [])
             body_line0 = it.src.count("\n", 0, it.body_open) + 1
             chunks = splice_fn(sig, body, spec, where, prov, None)
@@ -365,10 +502,12 @@ class Unit:
                 for sub in blk.get("item", []):
                     self._emit_any(em, sub)
                 em.emit("} // mod %s" % blk["mod"], {"kind": "glue"})
-            elif "file" in blk:
-                self._emit_any(em, blk)
             else:
-                raise LostAnchor("bad block in unit " + self.name)
+                self._emit_any(em, blk)
+        if self.fmt_patterns:
+            em.emit(VSTR_TRAIT, {"kind": "trusted", "what": "class F: VStr (Display of String/str is the string itself)", "file": "tools/units.py"})
+            for pat in sorted(self.fmt_patterns):
+                em.emit(fmt_shim(pat), {"kind": "trusted", "what": "class F shim vfmt_" + pat, "file": "tools/units.py"})
         em.emit("} // verus!\nfn main() {}")
         return em
 
@@ -377,6 +516,12 @@ class Unit:
             self.include(em, sub["include"], sub.get("kind", "spec"))
         elif "raw" in sub:
             em.emit(sub["raw"], {"kind": "glue"})
+        elif "verbatim" in sub:
+            sf = self.src(sub["file"])
+            it = sf.find(sub["verbatim"])
+            a, b = it.lines()
+            self.prov["items"].append({"file": sub["file"], "find": sub["verbatim"], "lines": [a, b], "sha256": it.sha(), "edits": [], "label": sub["verbatim"]})
+            em.emit(strip_comments(it.src[it.sig_start:it.end]), per_line=lambda k: {"kind": "repo", "file": sub["file"], "line": a + k, "item": sub["verbatim"]})
         elif "impl" in sub:
             em.emit(sub["impl"] + " {", {"kind": "glue"})
             for f in sub["item"]:
